@@ -375,13 +375,20 @@ def _new_allocations(context, resource_provider, consumer, resources):
 
 
 def delete_consumers(consumers):
-    """Helper function that deletes any consumer object supplied to it
+    """Helper function that deletes any consumer object supplied to it,
+    unless another request has written allocations for that consumer in the
+    meantime.
 
     :param consumers: iterable of Consumer objects to delete
     """
     for consumer in consumers:
         try:
-            consumer.delete()
+            # The consumer was auto-created by the failing request, but a
+            # racing request may have found the record and successfully
+            # allocated against it since: never delete a consumer out from
+            # under its allocations.
+            consumer_obj.delete_consumers_if_no_allocations(
+                consumer._context, [consumer.uuid])
             LOG.debug("Deleted auto-created consumer with consumer UUID "
                       "%s after failed allocation", consumer.uuid)
         except Exception as err:
